@@ -9,6 +9,7 @@ import (
 	"bufio"
 	"bytes"
 	"context"
+	"encoding/hex"
 	"encoding/json"
 	"fmt"
 	"io"
@@ -69,7 +70,7 @@ func exprStr(e *model.Expr) interface{} {
 
 func dumpNode(n *graph.Node) map[string]interface{} {
 	m := map[string]interface{}{
-		"id": n.ID, "type": n.Type, "name": n.Name, "snippet": n.CodeSnippet, "line": n.LineNumber,
+		"id": n.ID, "type": n.Type, "name": n.Name, "snippet": n.CodeSnippet, "snippetHex": hex.EncodeToString([]byte(n.CodeSnippet)), "line": n.LineNumber,
 		"file": n.File, "external": n.IsExternal, "modifier": n.Modifier, "returnType": n.ReturnType,
 		"argTypes": n.MethodArgumentsType, "argValues": n.MethodArgumentsValue, "package": n.PackageName,
 		"superClass": n.SuperClass, "interfaces": n.Interface, "dataType": n.DataType, "scope": n.Scope,
